@@ -2,3 +2,4 @@ import ArimModel.Wire
 import ArimModel.MinPlus
 import ArimModel.Fermat
 import ArimModel.Chunk
+import ArimModel.Frame
